@@ -132,6 +132,10 @@ func loadFindings(path string) ([]Finding, error) {
 // returns the process exit code.
 func (r *Report) Finish(verifDir string, seed int) int {
 	findings, err := loadFindings(filepath.Join(verifDir, "known_findings.json"))
+	if out := os.Getenv("VERIF_OUT"); out != "" {
+		// witness / scratch runs write their evidence elsewhere
+		verifDir = out
+	}
 	if err != nil {
 		fmt.Println("ERROR reading known findings:", err)
 		return 2
